@@ -209,13 +209,21 @@ Proof.
     + intros Ec. subst c. discriminate. }
   split; [exact HI'|]. split; [|exact Hroot'].
   intros k2 p2 Hp2 Hpre2.
-  assert (Hnc : Forall no_clear (removed_keys s s' ++ written_keys s s' ++ [AGG c None; ALW c None])).
+  assert (Hregs : forall a, In a (removed_regs c s s') -> match a with AGG _ _ | ALW _ _ => True | _ => False end).
+  { intros a Hin. unfold removed_regs in Hin. apply filter_In in Hin as (Hin & _). apply in_flat_map in Hin as (m & _ & Hin).
+    destruct (lookup (data s') (fst m)); [destruct Hin|].
+    pose proof (reg_del_v2_only (key_of (fst m))) as Hf. rewrite Forall_forall in Hf. specialize (Hf a Hin).
+    destruct a; try contradiction; exact I. }
+  assert (Hnc : Forall no_clear (removed_keys s s' ++ removed_regs c s s' ++ written_keys s s' ++ [AGG c None; ALW c None])).
   { apply Forall_forall. intros a Hin. unfold removed_keys, written_keys in Hin.
     repeat (apply in_app_iff in Hin as [Hin|Hin]).
     - apply in_flat_map in Hin as (m & _ & Hin). destruct (lookup (data s') (fst m)); [destruct Hin|]. destruct Hin as [<-|[]]. exact I.
+    - specialize (Hregs a Hin). destruct a; try contradiction; exact I.
     - apply in_flat_map in Hin as (m & _ & Hin). destruct (entry_eqb' _ _); [destruct Hin|]. destruct Hin as [<-|[]]. exact I.
     - destruct Hin as [<-|[<-|[]]]; exact I. }
-  rewrite (apply_all_last k2 _ t Hnc), !last_kv_app. cbn [last_kv].
+  assert (Hlr : last_kv k2 (removed_regs c s s') = None).
+  { apply last_kv_other. intros a Hin. specialize (Hregs a Hin). destruct a; try contradiction; exact I. }
+  rewrite (apply_all_last k2 _ t Hnc), !last_kv_app, Hlr. cbn [last_kv].
   destruct (nonprefixed_path k2 p2 Hp2 Hpre2) as [Hu|Eroot]; [|subst p2].
   2:{ (* the key "$SYS": no action names it, nothing is stored there before or after *)
       assert (Hw0 : last_kv k2 (written_keys s s') = None /\ last_kv k2 (removed_keys s s') = None).
